@@ -174,11 +174,35 @@ def locate(text, recipe):
                         elif text[q] == '{' and depth == 0:
                             break
                     q += 1
-                cands.append((lo + m.start(), q))
+                cands.append((lo + m.start(), q, p))
         if len(cands) != 1:
             raise ExtractError('signature %r matches %d definitions in %s' % (recipe['sig'], len(cands), recipe['file']))
-        s, b = cands[0]
+        s, b = cands[0][0], cands[0][1]
         e = match_close(text, mask, b, '{', '}')
+        if len(cands[0]) == 3:
+            # constructor: turn the member initialiser list into assignments at the start of the body (R12)
+            colon = cands[0][2]
+            init = strip_comments(text[colon + 1:b])
+            items, depth, cur = [], 0, ''
+            for ch in init:
+                if ch == '(':
+                    depth += 1
+                elif ch == ')':
+                    depth -= 1
+                if ch == ',' and depth == 0:
+                    items.append(cur)
+                    cur = ''
+                else:
+                    cur += ch
+            if cur.strip():
+                items.append(cur)
+            assigns = []
+            for it in items:
+                mm = re.match(r'\s*(\w+)\s*\((.*)\)\s*$', it, re.S)
+                if not mm:
+                    raise ExtractError('constructor initialiser not of the form member(expr): %r' % it)
+                assigns.append('    %s = (%s);' % (mm.group(1), mm.group(2).strip() or '0'))
+            return text[s:colon], '{\n' + '\n'.join(assigns) + '\n' + text[b + 1:e + 1], text.count('\n', 0, s) + 1
         return text[s:b], text[b:e + 1], text.count('\n', 0, s) + 1
     if kind == 'startop':
         pat = r'STARTOP\(\s*%s\s*\)' % re.escape(recipe['name'])
@@ -386,8 +410,12 @@ def apply_recipe(body, recipe, fired):
             b = next_code_char(body, mask, lp[pat - 1][1])
             if body[b] != '{':
                 raise ExtractError('insert: body of loop #%d is not braced (use brace_loops)' % pat)
-            body = body[:b + 1] + '\n' + txt + '\n' + body[b + 1:]
-            note('R10-insert:loop-%d-body-start' % pat, 1, True)
+            if where == 'body_end':
+                e = match_close(body, mask, b, '{', '}')
+                body = body[:e] + '\n' + txt + '\n' + body[e:]
+            else:
+                body = body[:b + 1] + '\n' + txt + '\n' + body[b + 1:]
+            note('R10-insert:loop-%d-%s' % (pat, where if where == 'body_end' else 'body-start'), 1, True)
             continue
         mask = code_mask(body)
         ms = [m for m in re.finditer(pat, body) if mask[m.start()]]
